@@ -213,7 +213,7 @@ func init() {
 		ID:    "C08",
 		Level: "model_checking",
 		Rule: "map-order exploration: every `range` over a map in the tool's non-test code (found with go/types, rewritten with go build -overlay) is a choice point offering every permutation of the entries (n <= 4; rotations and reversals above); for 11 configurations (valid rich, stub, three files, and invalid ones with several simultaneous defects of every class incl. files matched by several patterns and unreadable inputs) all executions with <= 1 non-canonical choice (quick) / <= 2 (thorough) are run: exit status, printed report and -o bytes must be identical; " +
-			"key permutations: every permutation of the keys of each YAML mapping (services, parameters, fields, meta.imports, meta.functions, 3 keys each), one mapping at a time (thorough: all pairs of mappings); environment grid: real binary under 6 environments x 2 working directories; backstop (not deciding): 30 fresh processes per invalid configuration. states = distinct choice prefixes executed, transitions = choice points passed",
+			"key permutations: every permutation of the keys of each YAML mapping (services, parameters, fields, meta.imports, meta.functions, 3 keys each), one mapping at a time (thorough: all pairs of mappings); environment grid: real binary under 10 environments (incl. TMPDIR missing / unwritable / on another file system) x 2 working directories; backstop (not deciding): 30 fresh processes per invalid configuration. states = distinct choice prefixes executed, transitions = choice points passed",
 		Assumptions: []string{
 			"map iteration inside third-party packages (yaml.v3, gonum, cobra, x/tools) is not intercepted; its effect is only sampled by the repeated-process backstop",
 			"sites executed during package initialisation run before the explorer exists and are listed, not explored",
@@ -536,6 +536,10 @@ func init() {
 				{"PATH=/usr/bin:/bin", "TERM=xterm-256color", "COLORTERM=truecolor", "CLICOLOR_FORCE=1"},
 				{"PATH=/usr/bin:/bin", "HOME=/nonexistent", "LANG=pl_PL.UTF-8", "TZ=Asia/Tokyo"},
 				{"PATH=/usr/bin:/bin", "p1=shadow", "GONTAINER=1", "GOFLAGS=-mod=vendor", "GODEBUG=randautoseed=0"},
+				// where temporary files would go: a directory that does not exist, one that cannot be written, another file system
+				{"PATH=/usr/bin:/bin", "TMPDIR=/nonexistent/tmp", "TMP=/nonexistent/tmp", "TEMP=/nonexistent/tmp", "GOTMPDIR=/nonexistent/tmp"},
+				{"PATH=/usr/bin:/bin", "TMPDIR=/proc/self", "XDG_CACHE_HOME=/nonexistent", "XDG_CONFIG_HOME=/nonexistent", "GOCACHE=/nonexistent", "HOME="},
+				{"PATH=/usr/bin:/bin", "TMPDIR=/dev/shm"},
 				{"PATH=/usr/bin:/bin", "GOPACKAGE=storage", "GOFILE=doc.go", "GOLINE=3", "GOARCH=arm64", "GOOS=plan9", "GOROOT=/nonexistent", "DOLLAR=$", "PWD=/elsewhere", "USER=nobody", "COLUMNS=7", "LINES=2"},
 			}
 			for _, cfg := range cfgs {
